@@ -191,7 +191,8 @@ def scn_trilexp(dim):
     return scn
 
 
-def scn_nodeheight(tree_s, pattern, kind, batch):
+def scn_nodeheight(tree_s, pattern, kind, batch, k=0):
+    """k > 0 (shifts only): the documented smooth-max option of DifferenceNodeHeightTransform"""
     tree = ast.literal_eval(tree_s)
     T = tree_s.count(",") + 1
     names = NAMES[:T]
@@ -207,12 +208,19 @@ def scn_nodeheight(tree_s, pattern, kind, batch):
         else:
             x = mk.real("d", batch + (T - 1,), lo=0)
         tm, newick = treemodels.build_reparam(tree, names, dates, x, kind)
+        if k > 0:
+            from torchtree.evolution.tree_height_transform import DifferenceNodeHeightTransform
+            tm.transform = DifferenceNodeHeightTransform(tm, k)
         t = tm.transform
         y = t(x)
         ladj = t.log_abs_det_jacobian(x, y)
         model_value = tm()   # ReparameterizedTimeTreeModel._call
         cl = [("true", "ladj_shape", tuple(ladj.shape) == batch, "%s vs %s" % (tuple(ladj.shape), batch))]
         cl.append(("eq", "tree_model_call_returns_ladj", model_value, ladj))
+        back = t.inv(y)
+        cl.append(("true", "inverse_shape", tuple(back.shape) == tuple(x.shape), "%s vs %s" % (tuple(back.shape), tuple(x.shape))))
+        if tuple(back.shape) == tuple(x.shape):
+            cl.append(("eq", "inverse_of_forward_is_identity", back, x))
         if tuple(ladj.shape) == batch:
             if mk.symbolic:
                 # differentiate w.r.t. the underlying free variables (u for ratios, s for root); chain rule factor
@@ -301,6 +309,53 @@ def scn_transformed_parameter(kind, n):
         return [("eq", "call_returns_ladj_initial", v1, want1),
                 ("eq", "call_returns_ladj_after_update", v2, want2),
                 ("eq", "tensor_is_transform_of_current_value", y2, t(x2))]
+    return scn
+
+
+def scn_transformed_parameter_shared(kind, how):
+    """TransformedParameter() returns the log-Jacobian for its CURRENT value when the underlying parameter is changed through ANOTHER
+    consumer of the same base: how = 'view' (assignment through a ViewParameter of the base), 'sibling' (assignment to a second
+    TransformedParameter built on a view: the inverse path writes the base), 'cat' (the base is one piece of a CatParameter)."""
+    def scn(mk):
+        import torchtree.distributions.transforms as tr
+        from torchtree.core.parameter import CatParameter, Parameter, TransformedParameter, ViewParameter
+        lo, hi = DOMAIN[kind]
+        n = 3
+        x1 = mk.real("x1", (n,), lo=lo, hi=hi)
+        x2 = mk.real("x2", (2,), lo=lo, hi=hi)
+        saved = tr.jacobian
+        if mk.symbolic:
+            tr.jacobian = _sym_jacobian_stub
+        try:
+            t = make_transform(kind)
+            base = Parameter("x", x1)
+            if how == "cat":
+                other = Parameter("o", mk.real("o", (1,), lo=lo, hi=hi))
+                under = CatParameter("c", [base, other], -1)
+            else:
+                under = base
+            tp = TransformedParameter("y", under, t)
+            tp()
+            _ = tp.tensor
+            view = ViewParameter("v", base, slice(0, 2))
+            if how in ("view", "cat"):
+                view.tensor = x2
+            else:
+                t2 = make_transform(kind)
+                sib = TransformedParameter("y2", view, t2)
+                _ = sib.tensor
+                sib.tensor = t2(x2)           # inverse path: writes x2 into the base through the view
+            cur = torch.cat((x2, x1[2:]), -1)
+            if how == "cat":
+                cur = torch.cat((cur, other.tensor), -1)
+            got = tp()
+            y_now = tp.tensor
+            want = t.log_abs_det_jacobian(cur, t(cur))
+        finally:
+            tr.jacobian = saved
+        return [("eq", "base_holds_the_assigned_values", base.tensor[..., :2], x2),
+                ("eq", "call_returns_ladj_of_current_value", got, want),
+                ("eq", "tensor_is_transform_of_current_value", y_now, t(cur))]
     return scn
 
 
@@ -399,6 +454,10 @@ def obligations(tier, seed):
         if kind != "cumsumexp":  # rank-2 sample shapes of CumSumExpTransform are C10's obligation
             add("C07.vector.%s[n=2,batch=(2,2)]" % kind, "scn_vector", (kind, 2, (2, 2)), "log-Jacobian and inverse (%s), batched rank 2" % kind)
         add("C07.transformed_parameter.%s" % kind, "scn_transformed_parameter", (kind, 3), "TransformedParameter() returns the log-Jacobian of its current value")
+    for kind in ("log", "cumsumexp", "cumsumsoftplus"):
+        for how in ("view", "sibling", "cat"):
+            add("C07.transformed_parameter.shared_base.%s[%s]" % (kind, how), "scn_transformed_parameter_shared", (kind, how),
+                "TransformedParameter() returns the log-Jacobian of its current value (base changed through another consumer)")
     for dim in (1, 2, 3):
         add("C07.trilexp[dim=%d]" % dim, "scn_trilexp", (dim,), "log-Jacobian and inverse (triangular-exp)")
     import torchtree.distributions.transforms as tr
@@ -422,5 +481,10 @@ def obligations(tier, seed):
     for ts in ("((0,(1,2)),(3,(4,5)))", "(((4,5),3),((1,2),0))", "((0,1),((2,3),(4,5)))"):
         for pat in ("hetero", "calendar"):
             add("C07.nodeheight.ratios[tree=%s,dates=%s]" % (ts, pat), "scn_nodeheight", (ts, pat, "ratios", ()), "node-height transform log-Jacobian (6 taxa, nested clades on both sides of the root)", max_paths=3000)
+    # smooth-max option of the increment transform (k > 0): log-Jacobian and inverse
+    for ts in ("((0,1),2)", "((0,1),(2,3))", "(0,(1,(2,3)))"):
+        for k_ in (0.5, 1, 3):
+            add("C07.nodeheight.shifts.smooth[tree=%s,k=%s]" % (ts, k_), "scn_nodeheight", (ts, "hetero", "shifts", (), k_), "increment node-height transform with smooth max: log-Jacobian and inverse", max_paths=3000)
+    add("C07.nodeheight.shifts.smooth[tree=((0,1),2),k=2,batch=(2,)]", "scn_nodeheight", ("((0,1),2)", "ties", "shifts", (2,), 2), "increment node-height transform with smooth max, batched", max_paths=3000)
     add("C07.logdiffrate[tree=((0,1),2),batch=(2,)]", "scn_logdiff", ("((0,1),2)", (2,)), "log-rate-difference transform, batched")
     return obs
